@@ -17,7 +17,10 @@ import (
 	"testing"
 )
 
-type vIv struct{ lo, hi int }
+// the stored item type carries a payload: the tag of an inserted item is the 1-based position of
+// its Insert in the history (unique per case); the tree must never read it (Intervalable exposes
+// the bounds only) and must hand back exactly the items it was given
+type vIv struct{ lo, hi, tag int }
 
 func (i vIv) GetLow() int  { return i.lo }
 func (i vIv) GetHigh() int { return i.hi }
@@ -43,7 +46,7 @@ func vShape(sb *strings.Builder, n *node[vIv]) {
 		sb.WriteByte('.')
 		return
 	}
-	fmt.Fprintf(sb, "(%d %d %d %d ", n.item.lo, n.item.hi, n.max, n.height)
+	fmt.Fprintf(sb, "(%d %d %d %d %d ", n.item.lo, n.item.hi, n.item.tag, n.max, n.height)
 	vShape(sb, n.left)
 	sb.WriteByte(' ')
 	vShape(sb, n.right)
@@ -84,6 +87,60 @@ func vCheckNode(n *node[vIv]) (h int, mx int, ok bool, why string) {
 }
 
 func vOverlap(a, b vIv) bool { return a.lo <= b.hi && b.lo <= a.hi }
+func vSameKey(a, b vIv) bool { return a.lo == b.lo && a.hi == b.hi }
+
+// vItemsStep: the items stored after one step must be the items stored before it (live), plus the
+// inserted one / minus exactly one item with the deleted bounds (any of them) / none after Clear;
+// every tag at most once.  Returns "" or what is wrong.
+func vItemsStep(live map[int]vIv, o vOp, tag int, got []vIv) string {
+	seen := map[int]bool{}
+	for _, g := range got {
+		if seen[g.tag] {
+			return fmt.Sprintf("item tagged %d is stored twice", g.tag)
+		}
+		seen[g.tag] = true
+	}
+	want := map[int]vIv{}
+	for k, x := range live {
+		want[k] = x
+	}
+	removable := 0
+	switch o.k {
+	case 'I':
+		if o.lo <= o.hi {
+			want[tag] = vIv{o.lo, o.hi, tag}
+		}
+	case 'D':
+		for _, x := range live {
+			if x.lo == o.lo && x.hi == o.hi {
+				removable++
+			}
+		}
+	case 'X':
+		want = map[int]vIv{}
+	}
+	missing := 0
+	for k, x := range want {
+		if !seen[k] {
+			missing++
+			if !(o.k == 'D' && x.lo == o.lo && x.hi == o.hi) {
+				return fmt.Sprintf("item %v (inserted, not deleted) is no longer stored", x)
+			}
+		}
+	}
+	for _, g := range got {
+		if x, ok := want[g.tag]; !ok || x != g {
+			return fmt.Sprintf("stored item %v was never inserted or was already removed", g)
+		}
+	}
+	if o.k == 'D' && removable > 0 && missing != 1 {
+		return fmt.Sprintf("Delete[%d,%d] removed %d items, expected exactly one of the %d with those bounds", o.lo, o.hi, missing, removable)
+	}
+	if o.k == 'D' && removable == 0 && missing != 0 {
+		return "Delete of absent bounds removed an item"
+	}
+	return ""
+}
 
 type vRun struct {
 	w        *bufio.Writer
@@ -111,9 +168,12 @@ func vOpsString(ops []vOp) string {
 }
 
 func (v *vRun) fail(kind string, ops []vOp, upto int, detail string) {
-	if n, ok := v.propLen[kind]; !ok || upto+1 < n {
+	str := vOpsString(ops[:upto+1])
+	old, ok := v.propFail[kind]
+	// shortest history first; among equally long ones the one with the smallest coordinates
+	if n := v.propLen[kind]; !ok || upto+1 < n || (upto+1 == n && len(str) < strings.Index(old, " ## ")) {
 		v.propLen[kind] = upto + 1
-		v.propFail[kind] = vOpsString(ops[:upto+1]) + " ## " + detail
+		v.propFail[kind] = str + " ## " + detail
 	}
 }
 
@@ -129,7 +189,7 @@ func (v *vRun) runCase(ops []vOp, queries bool, qlo, qhi int) {
 	var qs []vIv
 	for a := qlo; a <= qhi; a++ {
 		for b := a; b <= qhi; b++ {
-			qs = append(qs, vIv{a, b})
+			qs = append(qs, vIv{a, b, 0})
 		}
 	}
 	v.runCaseQ(ops, "Q:"+strconv.Itoa(qlo)+":"+strconv.Itoa(qhi), qs)
@@ -142,7 +202,7 @@ func (v *vRun) runCasePool(ops []vOp, pool []int) {
 	for i, a := range pool {
 		strs[i] = strconv.Itoa(a)
 		for _, b := range pool {
-			qs = append(qs, vIv{a, b})
+			qs = append(qs, vIv{a, b, 0})
 		}
 	}
 	v.runCaseQ(ops, "P:"+strings.Join(strs, ","), qs)
@@ -161,6 +221,7 @@ func (v *vRun) runCaseQ(ops []vOp, qtag string, qs []vIv) {
 	}()
 	t := NewIntervalBST[vIv]()
 	spec := []vIv{}
+	live := map[int]vIv{} // tag -> item: inserted and not yet removed (as observed on the tree)
 	var sb strings.Builder
 	sb.WriteString(vOpsString(ops))
 	sb.WriteString(";")
@@ -169,12 +230,12 @@ func (v *vRun) runCaseQ(ops []vOp, qtag string, qs []vIv) {
 		cur = i
 		switch o.k {
 		case 'I':
-			t.Insert(vIv{o.lo, o.hi})
+			t.Insert(vIv{o.lo, o.hi, i + 1})
 			if o.lo <= o.hi {
-				spec = append(spec, vIv{o.lo, o.hi})
+				spec = append(spec, vIv{o.lo, o.hi, 0})
 			}
 		case 'D':
-			t.Delete(vIv{o.lo, o.hi})
+			t.Delete(vIv{o.lo, o.hi, -1})
 			for j, s := range spec {
 				if s.lo == o.lo && s.hi == o.hi {
 					spec = append(spec[:j:j], spec[j+1:]...)
@@ -217,10 +278,18 @@ func (v *vRun) runCaseQ(ops []vOp, qtag string, qs []vIv) {
 		sort.Slice(b, lessIv(b))
 		same := len(a) == len(b)
 		for k := 0; same && k < len(a); k++ {
-			same = a[k] == b[k]
+			same = vSameKey(a[k], b[k])
 		}
 		if !same {
 			v.fail("contents", ops, i, fmt.Sprintf("contents %v, multiset %v", got, spec))
+		}
+		// items (payload identity): judged step by step against what was stored before
+		if why := vItemsStep(live, o, i+1, got); why != "" {
+			v.fail("items", ops, i, fmt.Sprintf("%s; GetAllIntervals (lo hi tag) = %v", why, got))
+		}
+		live = map[int]vIv{}
+		for _, g := range got {
+			live[g.tag] = g
 		}
 		if _, _, ok, why := vCheckNode(t.root); !ok {
 			v.fail(why, ops, i, "structural invariant broken")
@@ -269,7 +338,7 @@ func (v *vRun) runCaseQ(ops []vOp, qtag string, qs []vIv) {
 				if disjoint {
 					bf := true
 					for _, s := range spec {
-						if s != x && vOverlap(q, s) {
+						if !vSameKey(s, x) && vOverlap(q, s) {
 							bf = false
 						}
 					}
@@ -370,7 +439,7 @@ func TestVerifC19(t *testing.T) {
 					hi := lo + r.below(4) - (r.below(12) / 11)
 					ops = append(ops, vOp{'I', lo, hi})
 					if lo <= hi {
-						live = append(live, vIv{lo, hi})
+						live = append(live, vIv{lo, hi, 0})
 					}
 				case x < 85 && len(live) > 0:
 					k := r.below(len(live))
@@ -465,10 +534,10 @@ func TestVerifC19(t *testing.T) {
 				var ivs []vIv
 				for i := 0; i < len(idx); {
 					if i+1 < len(idx) && r.below(3) != 0 {
-						ivs = append(ivs, vIv{vPool[idx[i]], vPool[idx[i+1]]})
+						ivs = append(ivs, vIv{vPool[idx[i]], vPool[idx[i+1]], 0})
 						i += 2
 					} else {
-						ivs = append(ivs, vIv{vPool[idx[i]], vPool[idx[i]]})
+						ivs = append(ivs, vIv{vPool[idx[i]], vPool[idx[i]], 0})
 						i++
 					}
 				}
@@ -502,7 +571,7 @@ func TestVerifC19(t *testing.T) {
 						}
 						ops = append(ops, vOp{'I', lo, hi})
 						if lo <= hi {
-							live = append(live, vIv{lo, hi})
+							live = append(live, vIv{lo, hi, 0})
 						}
 					case x < 85 && len(live) > 0:
 						k := r.below(len(live))
@@ -519,6 +588,51 @@ func TestVerifC19(t *testing.T) {
 			v.runCasePool(ops, vPool)
 		}
 		v.hist["extreme-random-cases"] = ne
+		// 5. duplicate keys (payload identity): several items share their bounds, so a delete that
+		// re-finds a node by key can hit another item.  Exhaustive over two keys, then random over
+		// 1..3 keys with long runs of equal items and deletes at every shape.
+		dupAlpha := []vOp{{'I', 0, 0}, {'I', 0, 1}, {'D', 0, 0}, {'D', 0, 1}}
+		dupLen := 7
+		if thorough {
+			dupLen = 9
+		}
+		before = v.cases
+		var dupEnum func(cur []vOp, n int)
+		dupEnum = func(cur []vOp, n int) {
+			if len(cur) == n {
+				v.runCase(cur, false, 0, 0)
+				return
+			}
+			for _, o := range dupAlpha {
+				dupEnum(append(cur, o), n)
+			}
+		}
+		for l := 5; l <= dupLen; l++ {
+			dupEnum(nil, l)
+		}
+		v.hist["dupkey-exhaustive-cases"] = v.cases - before
+		ndup := 3000
+		if thorough {
+			ndup = 150000
+		}
+		for c := 0; c < ndup; c++ {
+			nk := 1 + r.below(3)
+			n := 6 + r.below(40)
+			ops := make([]vOp, 0, n)
+			cnt := make([]int, nk)
+			for i := 0; i < n; i++ {
+				k := r.below(nk)
+				if cnt[k] > 0 && r.below(100) < 40 {
+					ops = append(ops, vOp{'D', k / 2, k/2 + k%2})
+					cnt[k]--
+				} else {
+					ops = append(ops, vOp{'I', k / 2, k/2 + k%2})
+					cnt[k]++
+				}
+			}
+			v.runCase(ops, c%8 == 0, -1, 3)
+		}
+		v.hist["dupkey-random-cases"] = ndup
 		v.hist["exhaustive-cases"] = exh
 		v.hist["random-cases"] = nr
 		v.hist["disjoint-cases"] = nd
